@@ -332,19 +332,6 @@ def oracle(case, cd, seq, raw, crashes, info):
 
     for where, e in crashes:
         sig = f"crash:{where.split('(')[0]}:{type(e).__name__}"
-        if (
-            where == "to_nested_dict(all_local=False)"
-            and isinstance(e, IndexError)
-            and xy
-            and mask_end > 0
-            and any(
-                cs.channel_obj.addressing == "Global"
-                and not isinstance(cs, _DMMSchedule)
-                and not any(isinstance(sl.type, Pulse) for sl in cs.slots)
-                for cs in sched.values()
-            )
-        ):
-            sig += ":xy-slm-global-channel-without-pulse"
         bad(sig, f"{where} raised {e!r} on a concrete sequence")
 
     chan_exp = {}
